@@ -10,6 +10,8 @@ import (
 	"go/parser"
 	"go/scanner"
 	"go/token"
+	"os"
+	"path/filepath"
 	"sort"
 	"strconv"
 	"strings"
@@ -23,7 +25,7 @@ import (
 type P = verifhook.MetavarsProperty
 type F = verifhook.MetavarsFile
 
-func hx(s string) string  { return lib.Bytes([]byte(s)) }
+func hx(s string) string   { return lib.Bytes([]byte(s)) }
 func unhx(s string) string { return string(lib.ParseBytes(s)) }
 
 func encProps(ps []P) string {
@@ -133,6 +135,104 @@ func roundTrips(f *F) bool {
 	}
 	g, err := verifhook.MetavarsRead(bytes.NewReader(out))
 	return err == nil && sameFile(f, g)
+}
+
+// ---------------------------------------------------------------- file level
+
+var scratchDir string
+
+// scratchPath is the one path that every file-level case writes to (removed at the start of a case).
+func scratchPath() string {
+	if scratchDir == "" {
+		base := os.Getenv("VERIF_BUILD")
+		d, err := os.MkdirTemp(base, "c20files")
+		if err != nil {
+			d, err = os.MkdirTemp("", "c20files")
+			if err != nil {
+				panic(err)
+			}
+		}
+		scratchDir = d
+	}
+	return filepath.Join(scratchDir, "vars.go")
+}
+
+func encDesc(f *F) string { return hx(f.Package) + "/" + encProps(f.Properties) }
+
+func decDesc(s string) *F {
+	p := strings.Split(s, "/")
+	return &F{Package: unhx(p[0]), Properties: decProps(p[1])}
+}
+
+func descTab(fs []*F, extra ...string) string {
+	strs := append([]string(nil), extra...)
+	for _, f := range fs {
+		strs = append(strs, f.Package)
+		for _, p := range f.Properties {
+			strs = append(strs, p.Name, p.Doc, p.Value)
+		}
+	}
+	return classTab(strs...)
+}
+
+func filesCase(fs []*F) string {
+	ss := make([]string, len(fs))
+	for i, f := range fs {
+		ss[i] = encDesc(f)
+	}
+	return "files " + strings.Join(ss, "|") + " " + descTab(fs)
+}
+
+// runFiles: WriteFile every description to the same path, then ReadFile.
+func runFiles(path string, fs []*F) (*F, string) {
+	os.Remove(path)
+	for _, f := range fs {
+		if err := verifhook.MetavarsWriteFile(path, cloneFile(f)); err != nil {
+			return nil, "err write"
+		}
+	}
+	g, err := verifhook.MetavarsReadFile(path)
+	if err != nil {
+		return nil, "err read"
+	}
+	return g, ""
+}
+
+// runEdit: WriteFile, then for every operation ReadFile -> Add/Set -> WriteFile (the release tool's
+// sequence; nothing is written when the operation fails), finally ReadFile.
+func runEdit(path string, f0 *F, ops []string) (*F, string) {
+	os.Remove(path)
+	if err := verifhook.MetavarsWriteFile(path, cloneFile(f0)); err != nil {
+		return nil, "err write"
+	}
+	for _, op := range ops {
+		g, err := verifhook.MetavarsReadFile(path)
+		if err != nil {
+			return nil, "err read"
+		}
+		o := strings.Split(op, ":")
+		switch o[0] {
+		case "g":
+			continue
+		case "a":
+			err = g.Add(P{Name: unhx(o[1]), Doc: unhx(o[2]), Value: unhx(o[3])})
+		case "s":
+			err = g.Set(unhx(o[1]), unhx(o[2]))
+		default:
+			panic("bad op")
+		}
+		if err != nil {
+			continue
+		}
+		if err := verifhook.MetavarsWriteFile(path, g); err != nil {
+			return nil, "err write"
+		}
+	}
+	g, err := verifhook.MetavarsReadFile(path)
+	if err != nil {
+		return nil, "err read"
+	}
+	return g, ""
 }
 
 // ---------------------------------------------------------------- generators
@@ -507,6 +607,124 @@ func gen(tier string, r *lib.Rand, emit func(string)) {
 		}
 	}
 
+	// ---- file level: histories of WriteFile on one path, then ReadFile ----
+	meta := func(version, date string, extra int, docs bool) *F {
+		d := func(s string) string {
+			if docs {
+				return s
+			}
+			return ""
+		}
+		f := &F{Package: "meta", Properties: []P{
+			{Name: "releaseversion", Doc: d("ReleaseVersion is the version of the most recent release."), Value: version},
+			{Name: "releasedate", Doc: d("ReleaseDate is the date of the most recent release. (RFC3339 date format.)"), Value: date},
+			{Name: "conceptdoi", Doc: d("ConceptDOI is the DOI for all versions."), Value: "10.5281/zenodo.4625263"},
+		}}
+		for i := 0; i < extra; i++ {
+			f.Properties = append(f.Properties, P{Name: "extra" + strconv.Itoa(i), Doc: d("x"), Value: strings.Repeat("y", i)})
+		}
+		return f
+	}
+	menu2 := []*F{
+		{Package: "p"},
+		{Package: "p", Properties: []P{{Name: "a", Value: ""}}},
+		{Package: "p", Properties: []P{{Name: "a", Value: "a much longer value than before \x00\xff"}}},
+		{Package: "longerpackagename", Properties: []P{{Name: "a", Doc: "documented", Value: "1"}, {Name: "b", Value: "2"}, {Name: "c", Value: "three"}}},
+		meta("0.10.12-rc.1", "2021-10-30", 0, true),
+		meta("0.10.13", "2021-10-30", 0, true),
+		meta("1.0.0", "2022-01-01", 2, false),
+		meta("0.4.0", "2021-10-30", 3, true),
+	}
+	for _, a := range menu2 {
+		emit(filesCase([]*F{a}))
+		for _, b := range menu2 {
+			emit(filesCase([]*F{a, b}))
+			for _, c := range menu2 {
+				emit(filesCase([]*F{a, b, c}))
+			}
+		}
+	}
+	for i := 0; i < nrand/3; i++ {
+		var fs []*F
+		for n := r.Range(2, 5); n > 0; n-- {
+			f := &F{Package: pl.name(r)}
+			for k := r.Intn(7); k > 0; k-- {
+				v := pl.value(r)
+				if r.Chance(1, 4) {
+					v = strings.Repeat(v, r.Range(2, 6))
+				}
+				f.Properties = append(f.Properties, P{Name: pl.name(r), Doc: pl.doc(r), Value: v})
+			}
+			fs = append(fs, f)
+		}
+		if r.Bool() { // make the last description a shortened version of an earlier one
+			src := fs[r.Intn(len(fs))]
+			last := cloneFile(src)
+			if n := len(last.Properties); n > 0 {
+				switch r.Intn(3) {
+				case 0:
+					last.Properties = last.Properties[:r.Intn(n)]
+				case 1:
+					j := r.Intn(n)
+					last.Properties[j].Value = last.Properties[j].Value[:len(last.Properties[j].Value)/2]
+				default:
+					last.Properties[r.Intn(n)].Doc = ""
+				}
+			}
+			fs = append(fs, last)
+		}
+		emit(filesCase(fs))
+	}
+	// ReadFile -> Set/Add -> WriteFile, the release tool's sequence
+	editOps := []string{
+		"s:" + hx("releaseversion") + ":" + hx("1.0.0"),
+		"s:" + hx("releaseversion") + ":" + hx("0.10.12-rc.2+build.12345"),
+		"s:" + hx("releasedate") + ":" + hx(""),
+		"a:" + hx("zenodoid") + ":" + hx("ZenodoID is the Zenodo deposit ID.") + ":" + hx("5622943"),
+		"s:" + hx("nosuchproperty") + ":" + hx("x"),
+		"a:" + hx("conceptdoi") + ":-:" + hx("dup"),
+		"g:" + hx("releaseversion"),
+	}
+	var eseqs func(prefix []string, k int)
+	eseqs = func(prefix []string, k int) {
+		if len(prefix) > 0 {
+			for _, f0 := range []*F{meta("0.10.12-rc.1", "2021-10-30", 0, true), meta("0.4.0", "2021-10-30", 1, false)} {
+				emit("edit " + encDesc(f0) + " " + strings.Join(prefix, ",") + " " + descTab([]*F{f0}))
+			}
+		}
+		if k == 0 {
+			return
+		}
+		for _, o := range editOps {
+			eseqs(append(append([]string(nil), prefix...), o), k-1)
+		}
+	}
+	eseqs(nil, 3)
+	for i := 0; i < nrand/3; i++ {
+		f0 := &F{Package: pl.name(r)}
+		for k := r.Range(1, 5); k > 0; k-- {
+			f0.Properties = append(f0.Properties, P{Name: pl.name(r), Doc: pl.doc(r), Value: pl.value(r) + pl.value(r)})
+		}
+		var ops, strs []string
+		for k := r.Range(1, 5); k > 0; k-- {
+			nm := f0.Properties[r.Intn(len(f0.Properties))].Name
+			if r.Chance(1, 4) {
+				nm = pl.name(r)
+			}
+			v, d := pl.value(r), pl.doc(r)
+			if r.Chance(1, 3) {
+				v = ""
+			}
+			strs = append(strs, nm, v, d)
+			if r.Chance(1, 3) {
+				ops = append(ops, "a:"+hx(nm)+":"+hx(d)+":"+hx(v))
+			} else {
+				ops = append(ops, "s:"+hx(nm)+":"+hx(v))
+			}
+		}
+		emit("edit " + encDesc(f0) + " " + strings.Join(ops, ",") + " " + descTab([]*F{f0}, strs...))
+	}
+
 	// ---- ordered map: every sequence of get/add/set over three names ----
 	ns := []string{"a", "b", "c"}
 	inits := [][]P{nil, {{Name: "b", Doc: "db", Value: "0"}}, {{Name: "a", Value: "0"}, {Name: "b", Doc: "db", Value: "1"}, {Name: "c", Value: "2"}},
@@ -591,6 +809,22 @@ func run(c string) string {
 		return "ok " + hx(g.Package) + " " + encProps(g.Properties)
 	case "rt", "rtclass":
 		return "ok " + lib.Bool(roundTrips(parseFileCase(f)))
+	case "files":
+		var fs []*F
+		for _, d := range strings.Split(f[1], "|") {
+			fs = append(fs, decDesc(d))
+		}
+		g, cls := runFiles(scratchPath(), fs)
+		if g == nil {
+			return cls
+		}
+		return "ok " + hx(g.Package) + " " + encProps(g.Properties)
+	case "edit":
+		g, cls := runEdit(scratchPath(), decDesc(f[1]), strings.Split(f[2], ","))
+		if g == nil {
+			return cls
+		}
+		return "ok " + hx(g.Package) + " " + encProps(g.Properties)
 	case "mapops":
 		file := &F{Package: "p", Properties: decProps(f[1])}
 		var res []string
@@ -794,8 +1028,70 @@ func oracle(c, res string) string {
 		if res != "ok 0" && res != "ok 1" {
 			return "unexpected result"
 		}
+	case "files":
+		var fs []*F
+		for _, d := range strings.Split(f[1], "|") {
+			fs = append(fs, decDesc(d))
+		}
+		return fileOracle(res, fs[len(fs)-1], func(path string) (*F, string) { return runFiles(path, fs) })
+	case "edit":
+		f0 := decDesc(f[1])
+		ops := strings.Split(f[2], ",")
+		// what an ordered map holds after the operations that succeed
+		want := cloneFile(f0)
+		for _, op := range ops {
+			o := strings.Split(op, ":")
+			idx := -1
+			for i := len(want.Properties) - 1; i >= 0; i-- {
+				if want.Properties[i].Name == unhx(o[1]) {
+					idx = i
+				}
+			}
+			switch {
+			case o[0] == "a" && idx < 0:
+				want.Properties = append(want.Properties, P{Name: unhx(o[1]), Doc: unhx(o[2]), Value: unhx(o[3])})
+			case o[0] == "s" && idx >= 0:
+				want.Properties[idx].Value = unhx(o[2])
+			}
+		}
+		return fileOracle(res, want, func(path string) (*F, string) { return runEdit(path, f0, ops) })
 	case "mapops":
 		return mapOracle(decProps(f[1]), strings.Split(f[2], ","), payload)
+	}
+	return ""
+}
+
+// fileOracle: after the last WriteFile the path must hold exactly the canonical text of the last
+// description, and ReadFile must return that description (whatever the path held before).
+func fileOracle(res string, last *F, rerun func(path string) (*F, string)) string {
+	if !withinHypotheses(last) {
+		return ""
+	}
+	for _, q := range last.Properties {
+		if isBuildLine(q.Doc) {
+			return ""
+		}
+	}
+	want := "ok " + hx(last.Package) + " " + encProps(last.Properties)
+	if res != want {
+		return "ReadFile after the last WriteFile does not return the description written last: got " + res
+	}
+	path := scratchPath() + ".oracle"
+	defer os.Remove(path)
+	g, cls := rerun(path)
+	if g == nil || !sameFile(g, last) {
+		return "re-running the history on another path gives a different result " + cls
+	}
+	onDisk, err := os.ReadFile(path)
+	if err != nil {
+		return "cannot read the written file"
+	}
+	mem, err := write(cloneFile(last))
+	if err != nil || !bytes.Equal(onDisk, mem) {
+		return "the path does not hold exactly the text Write produces for the last description (stale or missing bytes)"
+	}
+	if fs, err := format.Source(onDisk); err != nil || !bytes.Equal(fs, onDisk) {
+		return "the file on disk is not a fixed point of go/format"
 	}
 	return ""
 }
@@ -898,6 +1194,11 @@ func mapOracle(init []P, ops []string, payload string) string {
 }
 
 func main() {
+	defer func() {
+		if scratchDir != "" {
+			os.RemoveAll(scratchDir)
+		}
+	}()
 	lib.Main(lib.Prop{
 		ID:     "C20",
 		Gen:    gen,
@@ -918,6 +1219,10 @@ func main() {
 				return res == "ok 0"
 			case "mapops":
 				return strings.Contains(f[2], ",")
+			case "files":
+				return strings.Contains(f[1], "|") && strings.HasPrefix(res, "ok ")
+			case "edit":
+				return strings.HasPrefix(res, "ok ")
 			}
 			return false
 		},
